@@ -4,9 +4,12 @@ package c09
 
 import (
 	"bytes"
+	"context"
 	"encoding/json"
 	"fmt"
+	"io"
 	"math/rand"
+	"net/http"
 	"net/http/httptest"
 	"strings"
 
@@ -38,8 +41,8 @@ type Req struct {
 	ParamsText string   `json:"paramsText"` // "" = member absent
 	ElemTexts  []string `json:"elemTexts,omitempty"`
 	NullElem   bool     `json:"nullElem,omitempty"`
-	Class      string   `json:"class"` // generator's label: ok | unknown | arity | badtype | nonarray | notif | badid …
-	Token      int      `json:"token"` // unique number placed in the params when the shape allows
+	Class      string   `json:"class"`                // generator's label: ok | unknown | arity | badtype | nonarray | notif | badid …
+	Token      int      `json:"token"`                // unique number placed in the params when the shape allows
 	ChanTarget bool     `json:"chanTarget,omitempty"` // resolves to a channel-returning method (unsupported over HTTP: -32601 before any gate)
 }
 
@@ -260,6 +263,41 @@ func RunImpl(c *Case) (Out, []byte, []api.Entry) {
 		inv = append(inv, e.Tag)
 	}
 	return Out{Status: rec.Code, Toks: Tokenise(body), Invoked: inv}, body, ents
+}
+
+// RunImplVia delivers the same body another way: "chunked" = a real HTTP request whose length is not
+// declared (Transfer-Encoding: chunked), "direct" = the exported HandleRequest entry point.  The size
+// limit must hold however the bytes arrive.
+func RunImplVia(c *Case, via string) (Out, []byte, []api.Entry) {
+	l := &api.Log{}
+	s := BuildServer(c.Handler, c.Max, l)
+	var body []byte
+	status := 200
+	switch via {
+	case "direct":
+		var buf bytes.Buffer
+		s.HandleRequest(context.Background(), strings.NewReader(c.Raw), &buf)
+		body = buf.Bytes()
+	case "chunked":
+		ts := httptest.NewServer(s)
+		req, _ := http.NewRequest("POST", ts.URL, io.MultiReader(strings.NewReader(c.Raw))) // not a type net/http knows the length of
+		req.Header.Set("Content-Type", "application/json")
+		resp, err := http.DefaultClient.Do(req)
+		if err == nil {
+			body, _ = io.ReadAll(resp.Body)
+			resp.Body.Close()
+			status = resp.StatusCode
+		}
+		ts.Close()
+	default:
+		return RunImpl(c)
+	}
+	ents := l.Take()
+	inv := []string{}
+	for _, e := range ents {
+		inv = append(inv, e.Tag)
+	}
+	return Out{Status: status, Toks: Tokenise(body), Invoked: inv}, body, ents
 }
 
 // ---------- the property's monitor, on the implementation's own reply ----------
